@@ -22,7 +22,9 @@ SYMS = ['prose', '', '    indented prose', '>>> x = 1', '>>> f(', '... 2)', '...
 
 EXTRA_SYMS = ['>>>\tq = 1', '>>> \xe9 = 1', '\xa0>>> n = 1', '>>> w = 1\x0c', 'prose\x0cmore', '            >>> deep = 1', '            deep want',
               '>>> long_name_' + 'x' * 180 + ' = 1', 'w' * 200, '...   ', '>>>  two_blanks = 1', '>>> a = 1  \t ', '\x1c', '>>> b = "\x85"', ' \t ', '>>> c = 1\r',
-              '>>> # xdoctest: +REQUIRES(module:\xe9)', '... # only a comment', '>>> d = (1,  # comment', '...      2)']
+              '>>> # xdoctest: +REQUIRES(module:\xe9)', '... # only a comment', '>>> d = (1,  # comment', '...      2)',
+              # a prompt is followed by an ASCII blank (or nothing): other white space after the three characters makes it ordinary text
+              '...\u3000rest of a sentence', '>>>\u3000wide blank', '...\xa0no-break', '>>>\u2003em', '    ...\u3000indented', '...\x0b', '>>>\x1f']
 
 
 # ---------------------------------------------------------------------------
